@@ -2,6 +2,7 @@
 
 pub mod c07;
 pub mod c08;
+pub mod c09;
 pub mod c10;
 pub mod c11;
 pub mod c16;
@@ -15,6 +16,7 @@ pub fn run(a: &Args) -> i32 {
         "C01" | "C02" | "C03" | "C04" | "C05" | "C06" | "C12" | "C13" | "C19" => walkprops::run(a),
         "C07" => c07::run(a),
         "C08" => c08::run(a),
+        "C09" => c09::run(a),
         "C10" => c10::run(a),
         "C11" => c11::run(a),
         "C16" => c16::run(a),
@@ -46,6 +48,7 @@ pub fn replay(file: &str) -> i32 {
         "C01" | "C02" | "C03" | "C04" | "C05" | "C06" | "C12" | "C13" | "C19" => walkprops::replay(&v),
         "C07" => c07::replay(&v),
         "C08" => c08::replay(&v),
+        "C09" => c09::replay(&v),
         "C10" => c10::replay(&v),
         "C11" => c11::replay(&v),
         "C16" => c16::replay(&v),
